@@ -80,17 +80,29 @@ Proof.
   apply in_or_app. right. left. reflexivity.
 Qed.
 
+(* ---------------------------------------------------------------- UTF-8 *)
+Lemma utf8_ascii : forall s, (forall b, In b s -> (b < 128)%N) -> utf8_valid s = true.
+Proof.
+  induction s as [|b s IH]; intros H; [reflexivity|]. cbn [utf8_valid].
+  assert ((b <? 128)%N = true) as E by (apply N.ltb_lt; apply H; left; reflexivity).
+  rewrite E. apply IH. intros c Hc. apply H. right. exact Hc.
+Qed.
+
+Lemma utf8_ascii1 : forall c, (c < 128)%N -> utf8_valid [c] = true.
+Proof. intros c H. apply utf8_ascii. intros b [E|[]]. subst b. exact H. Qed.
+
 (* ---------------------------------------------------------------- INFO: the typed string *)
-Lemma info_string_roundtrip : forall s, s <> [] -> Z.of_nat (length s) <= 2147483647 ->
+Lemma info_string_roundtrip : forall s, s <> [] -> utf8_valid s = true ->
+  Z.of_nat (length s) <= 2147483647 ->
   exists bs, enc_info_string s = Ok bs /\ dec_info_string bs = ROk (Some s).
 Proof.
-  intros s Hne Hl. unfold enc_info_string.
+  intros s Hne Hu Hl. unfold enc_info_string.
   destruct (descriptor_roundtrip 7 (Z.of_nat (length s)) s) as [d [Ed Rd]]; [reflexivity|lia|].
   rewrite Ed. cbn [bind]. eexists. split; [reflexivity|].
   unfold dec_info_string. rewrite Rd. cbn [Z.eqb Pos.eqb].
   assert (Z.of_nat (length s) =? 0 = false) as E0 by (destruct s; [contradiction|cbn [length]; lia]).
   rewrite E0. rewrite Nat2Z.id. rewrite <- (app_nil_r s) at 2.
-  rewrite take_app by reflexivity. reflexivity.
+  rewrite take_app by reflexivity. rewrite Hu. reflexivity.
 Qed.
 
 (* the empty string is stored as String(0), which reads back as the missing value *)
@@ -98,17 +110,18 @@ Lemma info_string_empty_refuted :
   exists s bs, enc_info_string s = Ok bs /\ dec_info_str bs = ROk SNone.
 Proof. exists []. eexists. split; [reflexivity|]. vm_compute. reflexivity. Qed.
 
-Lemma info_str_roundtrip : forall s, s <> [] -> Z.of_nat (length s) <= 2147483647 ->
+Lemma info_str_roundtrip : forall s, s <> [] -> utf8_valid s = true ->
+  Z.of_nat (length s) <= 2147483647 ->
   exists bs, enc_info_string s = Ok bs /\ dec_info_str bs = ROk (SStr s).
 Proof.
-  intros s Hne Hl. destruct (info_string_roundtrip s Hne Hl) as [bs [E D]].
+  intros s Hne Hu Hl. destruct (info_string_roundtrip s Hne Hu Hl) as [bs [E D]].
   exists bs. split; [exact E|]. unfold dec_info_str. rewrite D. reflexivity.
 Qed.
 
-Lemma info_char_roundtrip : forall c,
+Lemma info_char_roundtrip : forall c, (c < 128)%N ->
   exists bs, enc_info_char c = Ok bs /\ dec_info_char bs = ROk (SChar c).
 Proof.
-  intros c. destruct (info_string_roundtrip [c]) as [bs [E D]]; [discriminate|cbn; lia|].
+  intros c Hc. destruct (info_string_roundtrip [c]) as [bs [E D]]; [discriminate|apply utf8_ascii1; exact Hc|cbn; lia|].
   exists bs. split; [exact E|]. unfold dec_info_char. rewrite D. reflexivity.
 Qed.
 
@@ -172,13 +185,14 @@ Qed.
 
 (* bcf_info_char_vector_roundtrip *)
 Lemma info_chars_roundtrip : forall vs, vs <> [] -> chars_ok vs ->
+  utf8_valid (join comma (map char_piece vs)) = true ->
   Z.of_nat (length (join comma (map char_piece vs))) <= 2147483647 ->
   exists bs, enc_info_chars vs = Ok bs /\ dec_info_chars bs = ROk (SChars vs).
 Proof.
-  intros vs Hne Hok Hl.
+  intros vs Hne Hok Hu Hl.
   assert (map char_piece vs <> []) as Hne' by (destruct vs; [contradiction|discriminate]).
   destruct (info_string_roundtrip (join comma (map char_piece vs))) as [bs [E D]];
-    [apply join_nonempty; [exact Hne'|apply char_pieces_nonempty]|exact Hl|].
+    [apply join_nonempty; [exact Hne'|apply char_pieces_nonempty]|exact Hu|exact Hl|].
   exists bs. split; [exact E|]. unfold dec_info_chars. rewrite D. cbn [rbind].
   rewrite split_join by (exact Hne' || apply char_pieces_no_comma; exact Hok).
   rewrite chars_back by exact Hok. reflexivity.
@@ -186,13 +200,14 @@ Qed.
 
 (* bcf_info_string_vector_roundtrip *)
 Lemma info_strs_roundtrip : forall vs, vs <> [] -> strs_ok vs ->
+  utf8_valid (join comma (map str_piece vs)) = true ->
   Z.of_nat (length (join comma (map str_piece vs))) <= 2147483647 ->
   exists bs, enc_info_strs vs = Ok bs /\ dec_info_strs bs = ROk (SStrs vs).
 Proof.
-  intros vs Hne Hok Hl.
+  intros vs Hne Hok Hu Hl.
   assert (map str_piece vs <> []) as Hne' by (destruct vs; [contradiction|discriminate]).
   destruct (info_string_roundtrip (join comma (map str_piece vs))) as [bs [E D]];
-    [apply join_nonempty; [exact Hne'|apply str_pieces_nonempty; exact Hok]|exact Hl|].
+    [apply join_nonempty; [exact Hne'|apply str_pieces_nonempty; exact Hok]|exact Hu|exact Hl|].
   exists bs. split; [exact E|]. unfold dec_info_strs. rewrite D. cbn [rbind].
   rewrite split_join by (exact Hne' || apply str_pieces_no_comma; exact Hok).
   rewrite strs_back by exact Hok. reflexivity.
@@ -232,17 +247,17 @@ Qed.
 Lemma cell_length : forall m s, (length s <= m)%nat -> length (cell m s) = m.
 Proof. intros m s H. unfold cell. rewrite app_length, repeat_length. lia. Qed.
 
-Definition cell_ok (m : nat) (s : str) : Prop := (length s <= m)%nat /\ ~ In nul s.
+Definition cell_ok (m : nat) (s : str) : Prop := (length s <= m)%nat /\ ~ In nul s /\ utf8_valid s = true.
 
 Lemma dec_cells_roundtrip : forall m ss rest, (forall s, In s ss -> cell_ok m s) ->
   dec_cells (length ss) m (flat_map (cell m) ss ++ rest) = Some ss.
 Proof.
   induction ss as [|s ss IH]; intros rest H; [reflexivity|].
   cbn [length dec_cells flat_map]. rewrite <- app_assoc.
-  destruct (H s (or_introl eq_refl)) as [Hl Hn].
+  destruct (H s (or_introl eq_refl)) as [Hl [Hn Hu]].
   rewrite take_app by (apply cell_length; exact Hl).
   rewrite IH by (intros s' Hs'; apply H; right; exact Hs').
-  rewrite until_nul_cell by exact Hn. reflexivity.
+  rewrite until_nul_cell by exact Hn. rewrite Hu. reflexivity.
 Qed.
 
 (* one descriptor String(m) and one NUL-padded cell per sample: read back as the cells *)
@@ -297,7 +312,8 @@ Qed.
 
 (* what every present string needs for its cell to be read back whole (no NUL), and the bound
    that makes the descriptor writable *)
-Definition fmt_str_ok (s : str) : Prop := ~ In nul s /\ Z.of_nat (length s) <= 2147483647.
+Definition fmt_str_ok (s : str) : Prop :=
+  ~ In nul s /\ utf8_valid s = true /\ Z.of_nat (length s) <= 2147483647.
 
 (* write_string_values then the cell reader: every sample's cell comes back ('.' for a missing
    sample) *)
@@ -320,14 +336,14 @@ Proof.
   assert (Z.of_nat m <= 2147483647) as Hm2.
   { assert (m <= Z.to_nat 2147483647)%nat as B; [|lia]. apply fold_max_le; [lia|].
     intros x Hx. destruct (present_lens_in vals x Hx) as [[s [Hs E]]|E]; subst x; [|lia].
-    destruct (Hok s Hs) as [_ Hb]. lia. }
+    destruct (Hok s Hs) as [_ [_ Hb]]. lia. }
   rewrite (cells_eq m vals).
   destruct (cells_frame m (map str_piece vals)) as [d [Ed Dd]]; [|exact Hm2|].
   - intros s Hs. apply in_map_iff in Hs. destruct Hs as [v [E Hv]]. subst s.
     pose proof (fold_max_ge (present_lens vals) 0%nat _ (in_present_lens vals v Hv)) as G. fold m in G.
     destruct v as [s|]; cbn [str_piece].
-    + split; [exact G|]. destruct (Hok s Hv) as [Hn _]. exact Hn.
-    + split; [cbn [length]; exact G|intros [X|[]]; discriminate X].
+    + split; [exact G|]. destruct (Hok s Hv) as [Hn [Hu _]]. split; [exact Hn|exact Hu].
+    + split; [cbn [length]; exact G|]. split; [intros [X|[]]; discriminate X|reflexivity].
   - rewrite Ed. cbn [bind]. eexists. split; [reflexivity|].
     rewrite map_length in Dd. exact Dd.
 Qed.
@@ -359,7 +375,7 @@ Proof. reflexivity. Qed.
 
 (* ---------------------------------------------------------------- FORMAT Character, Number=1 *)
 Lemma fmt_chars_roundtrip : forall vals,
-  vals <> [] -> (forall c, In (Some c) vals -> c <> dot /\ c <> nul) ->
+  vals <> [] -> (forall c, In (Some c) vals -> c <> dot /\ c <> nul /\ (c < 128)%N) ->
   exists bs, enc_fmt_chars vals = Ok bs /\ dec_fmt_chars (length vals) bs = ROk vals.
 Proof.
   intros vals Hne Hok. unfold enc_fmt_chars.
@@ -367,7 +383,7 @@ Proof.
   - destruct vals; [contradiction|discriminate].
   - intros s Hs. apply in_map_iff in Hs. destruct Hs as [v [Ev Hv]].
     destruct v as [c|]; cbn [option_map] in Ev; [|discriminate]. inversion Ev. subst s.
-    destruct (Hok c Hv) as [_ Hn]. split; [|cbn; lia].
+    destruct (Hok c Hv) as [_ [Hn Ha]]. split; [|split; [apply utf8_ascii1; exact Ha|cbn; lia]].
     intros [X|[]]. apply Hn. exact X.
   - exists bs. split; [exact E|]. unfold dec_fmt_chars. rewrite map_length in D. rewrite D. cbn [rbind].
     clear E D Hne. induction vals as [|v vals IH]; [reflexivity|].
@@ -405,6 +421,7 @@ Qed.
 Lemma fmt_char_arrays_roundtrip : forall vals,
   vals <> [] ->
   (forall cs, In (Some cs) vals -> cs <> [] /\ chars_ok cs /\
+     utf8_valid (join comma (map char_piece cs)) = true /\
      Z.of_nat (length (join comma (map char_piece cs))) <= 2147483647) ->
   exists bs, enc_fmt_char_arrays vals = Ok bs /\
              dec_fmt_char_arrays (length vals) bs = ROk (map char_arr_back vals).
@@ -415,7 +432,7 @@ Proof.
   - destruct vals; [contradiction|discriminate].
   - intros s Hs. apply in_map_iff in Hs. destruct Hs as [v [Ev Hv]].
     destruct v as [cs|]; cbn [option_map] in Ev; [|discriminate]. inversion Ev. subst s.
-    destruct (Hok cs Hv) as [Hne [Hc Hl]]. split; [apply join_chars_no_nul; exact Hc|exact Hl].
+    destruct (Hok cs Hv) as [Hne [Hc [Hu Hl]]]. split; [apply join_chars_no_nul; exact Hc|split; [exact Hu|exact Hl]].
   - exists bs. split; [exact E|]. unfold dec_fmt_char_arrays. rewrite map_length in D. rewrite D. cbn [rbind].
     clear E D Hne0. induction vals as [|v vals IH]; [reflexivity|].
     cbn [map map_rres]. rewrite IH by (intros cs Hcs; apply Hok; right; exact Hcs).
@@ -461,6 +478,7 @@ Qed.
 Lemma fmt_str_arrays_roundtrip : forall vals,
   vals <> [] ->
   (forall vs, In (Some vs) vals -> vs <> [] /\ strs_ok vs /\
+     utf8_valid (join comma (map str_piece vs)) = true /\
      Z.of_nat (length (join comma (map str_piece vs))) <= 2147483647) ->
   exists bs, enc_fmt_str_arrays vals = Ok bs /\
              dec_fmt_str_arrays (length vals) bs = ROk (map norm_strs vals).
@@ -477,13 +495,13 @@ Proof.
   - intros s Hs. split; [apply (fold_max_ge (map (@length N) ss) 0%nat); apply in_map; exact Hs|].
     unfold ss in Hs. apply in_map_iff in Hs. destruct Hs as [v [Ev Hv]]. subst s.
     destruct v as [vs|]; cbn [ser_strs].
-    + apply join_strs_no_nul. apply (Hok vs Hv).
-    + intros [X|[]]. discriminate X.
+    + split; [apply join_strs_no_nul; apply (Hok vs Hv)|apply (Hok vs Hv)].
+    + split; [intros [X|[]]; discriminate X|reflexivity].
   - assert (m <= Z.to_nat 2147483647)%nat as B; [|lia]. apply fold_max_le; [lia|].
     intros x Hx. apply in_map_iff in Hx. destruct Hx as [s [Es Hs]]. subst x.
     unfold ss in Hs. apply in_map_iff in Hs. destruct Hs as [v [Ev Hv]]. subst s.
     destruct v as [vs|]; cbn [ser_strs]; [|cbn [length]; lia].
-    destruct (Hok vs Hv) as [_ [_ Hl]]. lia.
+    destruct (Hok vs Hv) as [_ [_ [_ Hl]]]. lia.
   - rewrite Ed. cbn [bind]. eexists. split; [reflexivity|].
     unfold dec_fmt_str_arrays. unfold ss in Dd at 1. rewrite map_length in Dd. rewrite Dd. cbn [rbind].
     f_equal. unfold ss. rewrite map_map. apply map_ext_in. intros v Hv. apply cell_strs_ser.
